@@ -379,8 +379,12 @@ def rule_F5(ctx):
         _ob(ctx, "F5", fn, f"{q}: y[n] = (B . x_window - A[1:] . y_window) / A[0], and y[n] enters the output history", ok, det, f"{q}:recurrence", IIR, q)
     for cls, cq in (("IirFilter", "_c_process"), ("ChickSysCustomIirFilter", "_c_chickensys_process")):
         pf = _fn(ctx, IIR, f"{cls}.process", "F5")
-        calls = [c for c in own_nodes(pf) if isinstance(c, ast.Call) and norm(c.func) == cq]
-        ok = len(calls) == 1 and [norm(a) for a in calls[0].args][2:] == ["self.B", "self.A", "self.x_prev", "self.y_prev"]
+        from .sem import straightline_ex as _slx, canon_ast as _cax
+        slp = _slx([st for st in pf.body])
+        kc = [e for e, i_ in slp["effects"] if isinstance(e, ast.Call) and norm(e.func) == cq]
+        ok = len(kc) == 1 and not kc[0].keywords and [_cax(a) for a in kc[0].args][2:] == ["self.B", "self.A", "self.x_prev", "self.y_prev"]
+        # and the array the kernel fills is the one handed back
+        ok = ok and slp["ret"] is not None and (_cax(slp["ret"]) == _cax(kc[0].args[1]) or _cax(slp["ret"]).startswith(_cax(kc[0].args[1]) + ".astype("))
         _ob(ctx, "F5", pf, f"{cls}.process hands the filter's own history arrays to the kernel (updated in place)", ok, "", f"{cls}.process:state-args", IIR, f"{cls}.process")
 
 
